@@ -53,7 +53,8 @@ BASES = {
 SCHEMAS = {k: v[0] for k, v in BASES.items()}
 PROFILES = {k: v[0].profiles(W) for k, v in BASES.items()}
 # (row subtotal, column subtotal) options
-SUBS = [("none", "none"), ("plain", "none"), ("hidden", "none"), ("none", "plain"), ("plain", "plain")]
+SUBS = [("none", "none"), ("plain", "none"), ("hidden", "none"), ("none", "plain"), ("plain", "plain"),
+        ("view_hidden", "none"), ("view_plain", "none")]       # the same subtotal defined on the variable's view
 # derived-item schemas: payload order / an explicit order on the MR dimension (different collator)
 SUBS_MRD = [("none", "none"), ("explicit", "explicit")]
 
@@ -94,12 +95,19 @@ def spaces(tier):
         n = q if tier == "quick" else t
         npf = len(PROFILES[name])
 
-        def level(k, npf=npf, ncf=len(CONFIGS[name])):
+        # quick tier of the largest space: respondents' weights from {0, 0.5, 2} only
+        idx = list(range(npf))
+        if tier == "quick" and name == "cat3_x_cat2":
+            idx = [i for i, pf in enumerate(PROFILES[name]) if pf[1] != 1]
+
+        def level(k, idx=idx, ncf=len(CONFIGS[name])):
             def gen():
-                for ms in multisets(npf, k):
+                for ms in multisets(len(idx), k):
+                    real = tuple(idx[j] for j in ms)
                     for c in range(ncf):
-                        yield (ms, c)
+                        yield (real, c)
             return gen
+        npf = len(idx)
         out.append(Space(name, [(k, level(k)) for k in range(0, n + 1)], npf,
                          {"schema": name, "profiles": npf, "configs": len(CONFIGS[name]), "weights": list(W),
                           "max_respondents": n}))
@@ -138,6 +146,28 @@ def _transforms(sch, cfg):
         if d:
             t[dimname] = d
     return t
+
+
+_VIEW = {}
+
+
+def _schema_for(space, sub):
+    """the space's schema, with the rows subtotal moved to the variable's view for the view_* options"""
+    sch = SCHEMAS[space]
+    if not sub[0].startswith("view_") or sch.dims[0][0] != "cat":
+        return sch
+    key = (space, sub[0])
+    if key not in _VIEW:
+        from mc.model import CatVar
+        vi = sch.dims[0][1]
+        v = sch.vars[vi]
+        ins = subtotal("s12", [1, 2], anchor="top", sid=1)
+        if sub[0] == "view_hidden":
+            ins["hide"] = True
+        vars_ = list(sch.vars)
+        vars_[vi] = CatVar(v.alias, v.cats, view_insertions=[ins])
+        _VIEW[key] = Schema(sch.name, vars_, sch.dims, weighted=sch.weighted, numeric=sch.numeric)
+    return _VIEW[key]
 
 
 def detail(space, state):
@@ -183,9 +213,9 @@ def _emptiness(orc, which, vs_mr):
 
 
 def check(space, state):
-    sch = SCHEMAS[space]
     cfg = CONFIGS[space][state[1]]
     hr, hc, pr, pc, sub = cfg
+    sch = _schema_for(space, sub)
     data = [PROFILES[space][i] for i in state[0]]
     t = _transforms(sch, cfg)
     part = Cube(tabulate(sch, data), transforms=t).partitions[0]
@@ -215,7 +245,7 @@ def check(space, state):
             if (k not in ro) != want_absent:
                 V.append(viol("strand:visibility", "row %d: displayed=%s, hidden=%s prune=%s empty=%s"
                               % (k, k in ro, hidden, pr, empty)))
-        has_sub = sub[0] == "plain" and rows.kind != "MR"
+        has_sub = sub[0] in ("plain", "view_plain") and rows.kind != "MR"
         asserted += 1
         if (any(i < 0 for i in ro)) != has_sub:
             V.append(viol("strand:subtotal_visibility", "subtotal displayed=%s expected=%s (%s)"
@@ -253,7 +283,7 @@ def check(space, state):
         if sub[which] in ("none", "explicit") or sch.dims[which][0] != "cat":
             continue
         shown = any(i < 0 for i in order)
-        if sub[which] == "hidden":
+        if sub[which] in ("hidden", "view_hidden"):
             want = False
         elif opp_prune and all(e is True for e in opp_emp):
             want = False
